@@ -285,29 +285,53 @@ def dft_jobs(seed=0):
 
 def vmp_concrete_jobs(seed=0):
     """bounded stand-in (S4) for the VMP wrappers: concrete ring dimension N as well as concrete shape, so that every matrix stride is
-    a constant; the reim4 block kernels are the REAL ones (inlined, unwound), only the FFT-side callees are assumed frames"""
+    a constant; the reim4 block kernels are the REAL ones (inlined, unwound; AVX2 ones through the intrinsics shim), only the
+    FFT-side callees are assumed frames"""
     J = []
-    SRC_ = ["arithmetic/vector_matrix_product.c", "reim4/reim4_arithmetic_ref.c"]
     REPL = [("reim_fftvec_mul", "reim_fftvec_mul__c"), ("reim_fftvec_addmul", "reim_fftvec_addmul__c"), ("reim_from_znx64", "reim_from_znx64__c"), ("reim_fft", "reim_fft__c")]
     shapes = [(2, 2, 2, 2), (1, 2, 2, 3), (3, 1, 2, 2), (2, 3, 2, 1), (3, 2, 1, 2), (2, 2, 3, 3),
               (0, 1, 1, 1), (1, 0, 1, 1), (0, 2, 2, 2), (2, 0, 2, 2), (2, 2, 0, 2), (2, 2, 2, 0), (1, 1, 1, 1)]
-    for (rs, as_, nr, nc) in shapes:
-        for n in (4, 8, 16):
-            tier = "quick" if (n in (4, 8) and (0 in (rs, as_, nr, nc) or (rs, as_, nr, nc) in ((2, 2, 2, 2), (1, 2, 2, 3), (3, 1, 2, 2)))) else "thorough"
-            d = {"RS": rs, "AS": as_, "NR": nr, "NC": nc, "NBIG": 1 if n >= 8 else 0, "NCONC": n}
-            J.append(Job(name="vmp.apply_dft_to_dft_ref.r%da%d.m%dx%d.N%d" % (rs, as_, nr, nc, n), props=["C11", "C18", "C15"], shape="S4",
-                         sources=SRC_, harness="vec_vmp.c", entry="h_vmp_apply_dft_to_dft", enforce=[("fft64_vmp_apply_dft_to_dft_ref", "vmp_apply_dft_to_dft__c")],
-                         replace=list(REPL), defines=d, pre_unwindset=["*:10"], cbmc_flags=["--object-bits", "10"],
-                         functions=["fft64_vmp_apply_dft_to_dft_ref"], timeout=600, tier=tier, replay={"driver": "vmp", "fn": "apply_dft_to_dft_ref"},
-                         bound_note="N=%d, shape (res,a,nrows,ncols)=(%d,%d,%d,%d), all data; FFT-side callees replaced by ASSUMED frame contracts" % (n, rs, as_, nr, nc)))
-    for (nr, nc) in [(1, 1), (2, 2), (2, 3), (3, 1), (0, 2), (2, 0)]:
-        for n in (4, 8, 16):
-            d = {"RS": 1, "AS": 1, "NR": nr, "NC": nc, "NBIG": 1 if n >= 8 else 0, "NCONC": n}
-            J.append(Job(name="vmp.prepare_contiguous_ref.m%dx%d.N%d" % (nr, nc, n), props=["C11", "C18"], shape="S4",
-                         sources=SRC_, harness="vec_vmp.c", entry="h_vmp_prepare", enforce=[("fft64_vmp_prepare_contiguous_ref", "vmp_prepare_contiguous__c")],
-                         replace=list(REPL), defines=d, pre_unwindset=["*:10"], cbmc_flags=["--object-bits", "10"],
-                         functions=["fft64_vmp_prepare_contiguous_ref"], timeout=600, tier="quick" if n < 16 else "thorough", replay={"driver": "vmp", "fn": "prepare_contiguous_ref"},
-                         bound_note="N=%d, matrix %dx%d" % (n, nr, nc)))
+    for var, SRC_, avx in (("ref", ["arithmetic/vector_matrix_product.c", "reim4/reim4_arithmetic_ref.c"], False),
+                           ("avx", ["arithmetic/vector_matrix_product_avx.c", "reim4/reim4_arithmetic_avx2.c"], True)):
+        props = ["C11", "C18", "C15"] + (["C07"] if avx else [])
+        for (rs, as_, nr, nc) in shapes:
+            for n in (4, 8, 16):
+                core_shape = (rs, as_, nr, nc) in ((2, 2, 2, 2), (1, 2, 2, 3), (3, 1, 2, 2))
+                tier = "quick" if (n in (4, 8) and (0 in (rs, as_, nr, nc) or core_shape) and (not avx or n == 8 or 0 in (rs, as_, nr, nc))) else "thorough"
+                d = {"RS": rs, "AS": as_, "NR": nr, "NC": nc, "NBIG": 1 if n >= 8 else 0, "NCONC": n}
+                if avx:
+                    d["VMP_AVX"] = 1
+                fn = "fft64_vmp_apply_dft_to_dft_" + var
+                J.append(Job(name="vmp.apply_dft_to_dft_%s.r%da%d.m%dx%d.N%d" % (var, rs, as_, nr, nc, n), props=props, shape="S4",
+                             sources=SRC_, harness="vec_vmp.c", entry="h_vmp_apply_dft_to_dft", enforce=[(fn, "vmp_apply_dft_to_dft__c")], avx=avx,
+                             replace=list(REPL), defines=d, pre_unwindset=["*:10"], cbmc_flags=["--object-bits", "10"],
+                             functions=[fn], timeout=600, tier=tier, replay={"driver": "vmp", "fn": "apply_dft_to_dft_" + var},
+                             # CBMC's libm model asserts in feraiseexcept when an fma of nondeterministic doubles is invalid/inexact: IEEE exceptions
+                             # are sticky flags, not traps, in the library's environment (no feenableexcept anywhere in /repo)
+                             waive=[r"floating-point exception"],
+                             bound_note="N=%d, shape (res,a,nrows,ncols)=(%d,%d,%d,%d), all data; FFT-side callees replaced by ASSUMED frame contracts" % (n, rs, as_, nr, nc)))
+        for (rs, as_, nr, nc) in [(2, 2, 2, 2), (1, 3, 2, 2), (2, 1, 3, 2), (2, 0, 2, 2), (0, 2, 2, 1), (2, 2, 0, 2)]:
+            for n in (4, 8):
+                d = {"RS": rs, "AS": as_, "NR": nr, "NC": nc, "NBIG": 1 if n >= 8 else 0, "NCONC": n}
+                if avx:
+                    d["VMP_AVX"] = 1
+                fn = "fft64_vmp_apply_dft_" + var
+                J.append(Job(name="vmp.apply_dft_%s.r%da%d.m%dx%d.N%d" % (var, rs, as_, nr, nc, n), props=["C11", "C18", "C15"], shape="S4",
+                             sources=SRC_[:1], harness="vec_vmp.c", entry="h_vmp_apply_dft", enforce=[(fn, "vmp_apply_dft__c")], avx=avx,
+                             replace=[("fft64_vec_znx_dft", "vec_znx_dft_site__c"), ("fft64_vmp_apply_dft_to_dft_" + var, "vmp_apply_dft_to_dft_site__c")],
+                             defines=d, cbmc_flags=["--object-bits", "10"], functions=[fn], timeout=600, tier="quick" if (n == 8 or not avx) else "thorough",
+                             bound_note="N=%d, shape (res,a,nrows,ncols)=(%d,%d,%d,%d), a stride N+1: scratch partition [rows*N*8 | 128 | 64*rows] against the two callee contracts" % (n, rs, as_, nr, nc)))
+        for (nr, nc) in [(1, 1), (2, 2), (2, 3), (3, 1), (0, 2), (2, 0)]:
+            for n in (4, 8, 16):
+                d = {"RS": 1, "AS": 1, "NR": nr, "NC": nc, "NBIG": 1 if n >= 8 else 0, "NCONC": n}
+                if avx:
+                    d["VMP_AVX"] = 1
+                fn = "fft64_vmp_prepare_contiguous_" + var
+                J.append(Job(name="vmp.prepare_contiguous_%s.m%dx%d.N%d" % (var, nr, nc, n), props=["C11", "C18"], shape="S4",
+                             sources=SRC_, harness="vec_vmp.c", entry="h_vmp_prepare", enforce=[(fn, "vmp_prepare_contiguous__c")], avx=avx,
+                             replace=list(REPL), defines=d, pre_unwindset=["*:10"], cbmc_flags=["--object-bits", "10"],
+                             functions=[fn], timeout=600, tier="quick" if (n == 8 or (n == 4 and not avx)) else "thorough", replay={"driver": "vmp", "fn": "prepare_contiguous_" + var},
+                             bound_note="N=%d, matrix %dx%d" % (n, nr, nc)))
     return J
 
 
@@ -343,9 +367,9 @@ def vmp_jobs(seed=0):
                          cbmc_flags=["--unwind", str(max(nr, nc) + 3), "--unwinding-assertions", "--object-bits", "10"],
                          functions=["fft64_vmp_prepare_contiguous_ref"], timeout=900,
                          bound_note="matrix %dx%d, %s" % (nr, nc, "every N >= 8" if nbig else "N in {2,4}")))
-    J.append(Job(name="vmp.tmp_bytes_formulas", props=["C11"], shape="S2", sources=SRC_ + ["arithmetic/vec_znx_dft.c"], harness="vec_vmp.c", entry="h_vmp_tmp_bytes", no_dfcc=True,
-                 defines={"RS": 1, "AS": 1, "NR": 1, "NC": 1, "NBIG": 1}, cbmc_flags=["--unwind", "3", "--object-bits", "10"],
-                 functions=["fft64_vmp_apply_dft_to_dft_tmp_bytes", "fft64_vmp_apply_dft_tmp_bytes", "fft64_vmp_prepare_contiguous_tmp_bytes"], timeout=300))
+    J.append(Job(name="vmp.tmp_bytes_formulas", props=["C11"], shape="S4", sources=SRC_, harness="vec_vmp.c", entry="h_vmp_tmp_bytes", no_dfcc=True,
+                 defines={"RS": 1, "AS": 1, "NR": 1, "NC": 1, "NBIG": 1}, cbmc_flags=["--unwind", "18", "--unwinding-assertions", "--object-bits", "10"],
+                 functions=["fft64_bytes_of_vmp_pmat", "fft64_vmp_apply_dft_to_dft_tmp_bytes", "fft64_vmp_apply_dft_tmp_bytes", "fft64_vmp_prepare_contiguous_tmp_bytes"], timeout=300))
     return J
 
 
